@@ -4,17 +4,21 @@ use std::sync::Arc;
 pub mod c01;
 pub mod c05;
 pub mod c06;
+pub mod c08;
 pub mod c12;
 pub mod c13;
 pub mod c14;
+pub mod c18;
 
 pub fn all() -> Vec<Arc<dyn Prop>> {
     vec![
         Arc::new(c01::C01),
         Arc::new(c05::C05),
         Arc::new(c06::C06),
+        Arc::new(c08::C08),
         Arc::new(c12::C12),
         Arc::new(c13::C13),
         Arc::new(c14::C14),
+        Arc::new(c18::C18),
     ]
 }
